@@ -110,7 +110,13 @@ def tasks():
     shared = [t for t in c02.tasks() if t.contract.target.endswith(("Boss.W_received", "Mailbox.N_release_and_accept",
                                                                     "Mailbox.rx_message", "Boss.got_message",
                                                                     "Receive.got_message", "Send._encrypt_and_send"))]
-    return mine + shared
+    # get_message() hands the received messages to the application through SequenceObserver and the eventual
+    # queue: C18's contracts on them (FIFO pairing, every hand-over goes through the queue) are part of "in order"
+    from . import c18
+    obs = [t for t in c18._f_tasks() if getattr(t, "contract", None) is not None and
+           ("SequenceObserver." in t.contract.target or "EventualQueue." in t.contract.target or
+            t.contract.target.endswith(("_DeferredWormhole.received", "_DeferredWormhole.get_message")))]
+    return mine + shared + obs
 
 
 TRUSTED = c02.TRUSTED
